@@ -133,6 +133,11 @@ func ZZ_C17_H4() {
 	// max-age: decimal printing/parsing of a fully symbolic 64-bit value is a division chain the
 	// solver does not finish in the quick tier; a representative set is enumerated instead.
 	maxAge := []int{0, 1, 59, 86400, 2147483647}[zz.Choose("maxAge", 5)]
+	// the value may end in white space that is not the ASCII space (only 0x20 is trimmed by the
+	// parser); crossed with the other attributes only for the first max-age value
+	if maxAge == 0 {
+		val = append(val, []string{"", "\t", "\u00a0", "\u3000"}[zz.Choose("valueSuffix", 4)]...)
+	}
 	var c Cookie
 	c.SetKeyBytes(key)
 	c.SetValueBytes(val)
